@@ -53,14 +53,15 @@ theorem rule_total (text : List Nat) (ext : Bool) : from_tz_string text ext ≠ 
 /-! ### inconsistent data is rejected (stated on whatever is accepted) -/
 
 /-- an accepted zone has at least one local time type, strictly increasing transition times, every
-transition's type index in bounds, no `i32::MIN` offset, and only designations of 3–7 characters
+transition's type index in bounds, every offset strictly within 24 hours of UTC (F32), and only designations of 3–7 characters
 from `[0-9A-Za-z+-]`: unsorted or repeated transitions, out-of-range type indices and illegal
 designations are therefore rejected -/
 theorem accepted_is_valid (bytes : List Nat) (z : Zone) (h : parse bytes = .ok z) : ZoneValid z :=
   post_spec (post_parse bytes) h
 
-/-- an accepted rule has rule days in range, rule times below one week in magnitude, offsets of
-at most 24:59:59 (+1 h for a defaulted DST offset), the standard type flagged non-DST and the
+/-- an accepted rule has rule days in range, rule times below one week in magnitude, offsets within
+the coarse bound `RuleV` needs for the lookup arithmetic (the sharp bound, strictly within 24 h, is
+`accepted_offsets_representable`), the standard type flagged non-DST and the
 daylight type flagged DST, and legal 3–7 character designations on both -/
 theorem rule_accepted_is_valid (text : List Nat) (ext : Bool) (r : Rule)
     (h : from_tz_string text ext = .ok r) : RuleV r :=
@@ -116,7 +117,7 @@ theorem written_footer (f : TzFile) (hs1 : BlockShape f.v1) (hs2 : BlockShape f.
 
 /-- the canonical text of EVERY well-formed rule reads back as that rule: both forms (`std offset`
 and `std offset dst offset,start/time,end/time`), bare and `<quoted>` designations, `Jn` / `n` /
-`Mm.w.d` days, offsets up to ±24:59:59, rule times `0…24:59:59` without and `±167:59:59` with the
+`Mm.w.d` days, offsets up to ±23:59:59, rule times `0…24:59:59` without and `±167:59:59` with the
 RFC 8536 extensions (`RuleOk ext r` carries the flag) -/
 theorem tz_roundtrip (r : Rule) (ext : Bool) (h : RuleOk ext r) :
     from_tz_string (renderTz r) ext = .ok r :=
@@ -127,8 +128,10 @@ theorem tz_roundtrip (r : Rule) (ext : Bool) (h : RuleOk ext r) :
 `Spec.Tz.Denotes ext s r` (Spec/TzGrammar.lean) is an inductive, reader-independent definition of
 "the byte string `s` is a POSIX TZ string (RFC 8536 extensions iff `ext`) standing for rule `r`":
 `std offset` or `std offset dst [offset],start[/time],end[/time]`; designations of 3–7 letters, or
-3–7 characters of `[0-9A-Za-z+-]` in `<…>`; offsets `[+|-]hh[:mm[:ss]]` up to 24:59:59 with any zero
-padding; omitted DST offset = one hour ahead of standard; `Jn` / `n` / `Mm.w.d`; omitted `/time` =
+3–7 characters of `[0-9A-Za-z+-]` in `<…>`; offsets `[+|-]hh[:mm[:ss]]` with hh = 0…24 and any zero
+padding, the stated value STRICTLY below 24:00:00 (`Within24h`: `24`, `24:00:01`, … `24:59:59` meet
+the field ranges but are refused when the `LocalTimeType` is built — the repair of finding F32; the
+same bound applies to a defaulted DST offset); omitted DST offset = one hour ahead of standard; `Jn` / `n` / `Mm.w.d`; omitted `/time` =
 02:00:00; times `0…24:59:59`, or signed up to ±167:59:59 with the extensions. -/
 
 /-- ACCEPTS ALL: every string of the grammar — every optional part present or absent, every
@@ -177,6 +180,7 @@ example : Denotes false (asc "EST5EDT,M3.2.0,M11.1.0") sampleRule2 :=
       (by decide) (by decide) (by decide) (by decide) (by decide)))
     (DayTime.default (Day.mwd (Num.snoc 1 (by decide) (Num.one 1 (by decide))) (Num.one 1 (by decide))
       (Num.one 0 (by decide)) (by decide) (by decide) (by decide) (by decide) (by decide)))
+    (by decide) (by decide)
 
 /-- non-vacuity: twelve non-canonical spellings (omitted DST offset / times, `+` signs, padded fields,
 quoted letter names, extension times at ±167:59:59) are in the grammar with the rule stated -/
@@ -573,7 +577,7 @@ theorem parse_written_v1 (f : TzFile) (hver : f.version = .V1) (hs : BlockShape 
 /-- the classes the property names, each on its own: a written file (v2/v3; values fitting their
 fields, admissible footer) is REJECTED if its transitions are not strictly increasing, or a
 transition's type index is out of bounds, or a type's designation index is out of bounds, or an
-offset is `i32::MIN`, or the indicator arrays contain the forbidden couple, or the leap-second table
+offset is 24 hours or more in magnitude (86400 s … `i32::MAX`, −86400 s … `i32::MIN`; F32), or the indicator arrays contain the forbidden couple, or the leap-second table
 violates its constraints, or the footer rule disagrees with the last transition -/
 theorem rejects_written_classes (f : TzFile) (hver : f.version ≠ .V1) (hs1 : BlockShape f.v1)
     (hs2 : BlockShape f.v2) (hfit : BlockFits f.version 8 f.v2) (rule : Option Rule)
@@ -581,7 +585,7 @@ theorem rejects_written_classes (f : TzFile) (hver : f.version ≠ .V1) (hs1 : B
     (h : ¬ SortedStrict (absBlock f.v2 rule).transitions
       ∨ (∃ t ∈ f.v2.trans, f.v2.types.length ≤ t.2)
       ∨ (∃ t ∈ f.v2.types, f.v2.names.length ≤ t.abbr)
-      ∨ (∃ t ∈ f.v2.types, t.off = I32_MIN)
+      ∨ (∃ t ∈ f.v2.types, t.off ≤ -86400 ∨ 86400 ≤ t.off)
       ∨ badIndicators f.v2.types.length f.v2.stdWalls f.v2.utLocals = true
       ∨ checkLeaps (absBlock f.v2 rule).leaps = false
       ∨ ¬ RuleAgrees (absBlock f.v2 rule)) :
@@ -597,7 +601,8 @@ theorem rejects_written_classes (f : TzFile) (hver : f.version ≠ .V1) (hs1 : B
     omega
   · have := (c1 t ht).2.2.1
     omega
-  · exact (c1 t ht).2.1 hmin
+  · have := (c1 t ht).2.1
+    omega
   · rw [h] at c2; cases c2
   · rw [h] at c5; cases c5
   · exact h c6
